@@ -661,18 +661,61 @@ _COMMENT_INNER_BLANKS = re.compile(r"/\*(?:(?!\*/).)*?[ \t]\r?\n(?:(?!\*/).)*\*/
 def _nonblank(t):
     return re.sub(r"[\s,]+", "", t)
 
-_MODPORT_OPEN = re.compile(r"^\s*modport\s+\S+\s*\{\s*(//.*|/\*.*\*/\s*)?$")
+# 5. a switch EXPRESSION whose default arm has no trailing comma and whose value is laid out over several
+#    lines (e.g. a broken `if c ? a : b`): pass 1 leaves a blank line before the closing `}`, pass 2 a second
+#    one (stable from there).  Recognised by: the only difference is blank lines inserted directly before
+#    the `}` line that closes a `switch {` block (same indentation as the line that ends in `switch {`).
+KEY_SWITCH_EXPR_BLANK = "switch-expression-default-arm-blank-line"
 
 
-def _in_empty_modport(lines, j1, j2):
-    """lines[j1:j2] are blank and sit between `modport x {` and `}` with only blank lines around"""
-    i = j1 - 1
-    while i >= 0 and lines[i].strip() == "":
-        i -= 1
+def _before_switch_expression_close(lines, j2):
     k = j2
     while k < len(lines) and lines[k].strip() == "":
         k += 1
-    return i >= 0 and k < len(lines) and _MODPORT_OPEN.match(lines[i]) is not None and lines[k].strip().startswith("}")
+    if k >= len(lines) or not lines[k].lstrip().startswith("}"):
+        return False
+    ind = len(lines[k]) - len(lines[k].lstrip())
+    i = k - 1
+    while i >= 0 and k - i < 200:
+        ln = lines[i]
+        if ln.strip() and len(ln) - len(ln.lstrip()) == ind:
+            return re.search(r"\bswitch\s*\{\s*$", ln) is not None
+        if ln.strip() and len(ln) - len(ln.lstrip()) < ind:
+            return False
+        i -= 1
+    return False
+
+
+# 6. a comment on a line of its own that follows a dropped trailing `,` inside a call / list
+#    (`f(a,  /***/\n)`): pass 1 indents the comment line by one level, pass 2 by two (the comment is then
+#    attached to the previous token instead of the dropped comma).  Recognised by: the only difference is
+#    the leading indentation of lines that start with a comment.
+KEY_COMMENT_INDENT = "comment-line-after-dropped-comma-indent"
+
+_MODPORT_OPEN = re.compile(r"^\s*modport\s+\S+\s*\{\s*(//.*|/\*.*\*/\s*)?$")
+
+
+_COMMENT_RE = re.compile(r"//[^\n]*|/\*.*?\*/", re.S)
+
+
+def _in_empty_modport(lines, j1, j2):
+    """lines[j1:j2] are blank and sit between `modport x {` and its `}` with nothing but blank lines and
+    comments in between (an empty modport body)"""
+    i = j1 - 1
+    while i >= 0 and j1 - i < 80 and _MODPORT_OPEN.match(lines[i]) is None:
+        i -= 1
+    if i < 0 or _MODPORT_OPEN.match(lines[i]) is None:
+        return False
+    k = j2
+    while k < len(lines) and not _COMMENT_RE.sub("", lines[k]).strip().startswith("}"):
+        k += 1
+        if k - j2 > 80:
+            return False
+    if k >= len(lines):
+        return False
+    body = _COMMENT_RE.sub("", "\n".join(lines[i + 1:k]))
+    # a multi-line comment may end on line k itself: cut what precedes the brace
+    return body.strip() == "" or _COMMENT_RE.sub("", "\n".join(lines[i + 1:k + 1])).strip().startswith("}")
 
 
 def explain_nonidempotence(f1, f2):
@@ -685,6 +728,10 @@ def explain_nonidempotence(f1, f2):
     for tag, i1, i2, j1, j2 in sm.get_opcodes():
         if tag == "equal":
             continue
+        if tag == "replace" and i2 - i1 == j2 - j1 and all(
+                x.lstrip() == y.lstrip() and x.lstrip().startswith(("/*", "//")) for x, y in zip(a[i1:i2], b[j1:j2])):
+            keys.add(KEY_COMMENT_INDENT)
+            continue
         if tag == "insert" and all(x.strip() == "" for x in b[j1:j2]):
             if _in_empty_modport(b, j1, j2):
                 keys.add(KEY_EMPTY_MODPORT)
@@ -694,6 +741,9 @@ def explain_nonidempotence(f1, f2):
                 p -= 1
             if p >= 0 and b[p].strip() == ",":
                 keys.add(KEY_COMMA_AFTER_COMMENT)
+                continue
+            if _before_switch_expression_close(b, j2):
+                keys.add(KEY_SWITCH_EXPR_BLANK)
                 continue
         return None
     return keys
